@@ -21,6 +21,9 @@ def invalid_values(cls, pname, kind, default, objs):
         _, dim = realsys.unit_info(default.value.units)
         out.append(("wrong-dimension", WRONG_DIM_FOR(tuple(dim))))
         out.append(("wrong-dimension-zero", SourceValue(0 * (u.kg if tuple(dim) != (0, 0, 1, 0, 0) else u.hour))))
+        if any(tuple(dim)):
+            # a forgotten unit: a plain number (its pint dimensionality is an empty, falsy container)
+            out.append(("wrong-dimension-none", SourceValue(300 * u.dimensionless)))
         if pname not in cls.attributes_that_can_have_negative_values():
             out.append(("negative", SourceValue(-abs(default.value.magnitude or 1) * default.value.units)))
         out.append(("wrong-type-float", 3.5))
@@ -241,7 +244,7 @@ def shard(args):
 def inval_json(r):
     """abstract description of the offered value for the Lean validation model"""
     lab = r["invalid"]
-    if lab in ("wrong-dimension", "wrong-dimension-zero"):
+    if lab in ("wrong-dimension", "wrong-dimension-zero", "wrong-dimension-none"):
         return {"t": "quantity", "dim": r.get("offered_dim", [0, 0, 0, 0, 0]), "neg": False}
     if lab == "negative":
         return {"t": "quantity", "dim": r.get("default_dim", [0, 0, 0, 0, 0]), "neg": True}
